@@ -89,6 +89,7 @@ var (
 	world     string
 	prop      string
 	workers   int
+	scale     = 1
 	goraceEnv = "halt_on_error=0 atexit_sleep_ms=0 exitcode=0"
 )
 
@@ -132,6 +133,9 @@ func main() {
 	agg := newAgg()
 
 	base := uint64(*seed) * 1000000
+	if *tier != "quick" {
+		scale = 3
+	}
 	if *tier == "quick" {
 		per := (*runs + workers - 1) / workers
 		if err := wave(agg, base, per, workers, 300*time.Second); err != nil {
@@ -415,7 +419,7 @@ func wave(a *agg, from uint64, per, n int, timeout time.Duration) error {
 func runWorker(a *agg, from uint64, count int, timeout time.Duration) error {
 	ctx, cancel := context.WithTimeout(context.Background(), timeout)
 	defer cancel()
-	cmd := exec.CommandContext(ctx, worker, "-world", world, "-from", strconv.FormatUint(from, 10), "-count", strconv.Itoa(count))
+	cmd := exec.CommandContext(ctx, worker, "-world", world, "-scale", strconv.Itoa(scale), "-from", strconv.FormatUint(from, 10), "-count", strconv.Itoa(count))
 	cmd.Env = workerEnv()
 	var stderr bytes.Buffer
 	cmd.Stderr = &stderr
@@ -646,6 +650,7 @@ type tapeFile struct {
 	Signature string   `json:"signature,omitempty"`
 	Message   string   `json:"message,omitempty"`
 	TraceHash string   `json:"trace_hash,omitempty"`
+	Scale     int      `json:"scale,omitempty"`
 	Trace     []string `json:"trace,omitempty"`
 	TSan      string   `json:"tsan,omitempty"`
 	Note      []string `json:"note,omitempty"`
@@ -659,7 +664,7 @@ type tapeFile struct {
 func runBatch(from uint64, count int) ([]found, error) {
 	ctx, cancel := context.WithTimeout(context.Background(), 600*time.Second)
 	defer cancel()
-	cmd := exec.CommandContext(ctx, worker, "-world", world, "-from", strconv.FormatUint(from, 10), "-count", strconv.Itoa(count))
+	cmd := exec.CommandContext(ctx, worker, "-world", world, "-scale", strconv.Itoa(scale), "-from", strconv.FormatUint(from, 10), "-count", strconv.Itoa(count))
 	cmd.Env = workerEnv()
 	var se bytes.Buffer
 	cmd.Stderr = &se
@@ -676,7 +681,7 @@ func confirmBatch(f *found, dir string) (string, bool, error) {
 	}
 	for _, rc := range rcs {
 		if rc.sig == f.sig && rc.seed == f.seed {
-			tf := tapeFile{Property: prop, World: world, Seed: f.seed, Signature: f.sig, Message: rc.msg, TSan: rc.tsan,
+			tf := tapeFile{Property: prop, World: world, Seed: f.seed, Scale: scale, Signature: f.sig, Message: rc.msg, TSan: rc.tsan,
 				BatchFrom: f.batchFrom, BatchCount: f.batchCount, Shrink: "not minimised: the report depends on the history of the worker process, the whole batch is the reproducer"}
 			os.MkdirAll(dir, 0o755)
 			path := filepath.Join(dir, fmt.Sprintf("%s-%d-%s.json", prop, f.seed, sanitize(f.sig)))
@@ -693,6 +698,9 @@ func confirmBatch(f *found, dir string) (string, bool, error) {
 // runTape executes one tape in a fresh worker process and returns the run
 // result plus the race reports.
 func runTape(tf tapeFile, trace bool) (*runResult, []found, error) {
+	if tf.Scale == 0 {
+		tf.Scale = scale
+	}
 	tmp, err := os.CreateTemp("", "verif-tape-*.json")
 	if err != nil {
 		return nil, nil, err
@@ -858,6 +866,7 @@ func confirmAndShrink(f *found, dir string, doShrink bool) (string, bool, error)
 		}
 	}
 	final.Property = prop
+	final.Scale = scale
 	final.Signature = f.sig
 	final.Message = msg
 	final.TraceHash = fmt.Sprintf("%016x", rr.Hash)
@@ -914,6 +923,9 @@ func doReplay(path string) int {
 		return 2
 	}
 	world = tf.World
+	if tf.Scale > 0 {
+		scale = tf.Scale
+	}
 	if tf.BatchCount > 0 {
 		rcs, err := runBatch(tf.BatchFrom, tf.BatchCount)
 		if err != nil {
@@ -929,7 +941,7 @@ func doReplay(path string) int {
 		fmt.Printf("NOT-REPRODUCED property=%s signature=%s (batch %d+%d)\n", tf.Property, tf.Signature, tf.BatchFrom, tf.BatchCount)
 		return 0
 	}
-	r, races, err := runTape(tapeFile{World: tf.World, Seed: tf.Seed, Tape: tf.Tape}, true)
+	r, races, err := runTape(tapeFile{World: tf.World, Seed: tf.Seed, Tape: tf.Tape, Scale: tf.Scale}, true)
 	if err != nil {
 		fmt.Fprintln(os.Stderr, "simdrive:", err)
 		return 2
